@@ -1329,7 +1329,7 @@ fn build_partial_hash_table(
         // Evaluate aggregate inputs
         let agg_inputs: Result<Vec<ArrayRef>> = aggregates
             .iter()
-            .map(|a| evaluate_expr(batch, &a.input))
+            .map(|a| widen_distinct_input(a, evaluate_expr(batch, &a.input)?))
             .collect();
         let agg_inputs = agg_inputs?;
 
@@ -2022,7 +2022,7 @@ fn aggregate_batches_hash(
         // Evaluate aggregate inputs
         let agg_inputs: Result<Vec<ArrayRef>> = aggregates
             .iter()
-            .map(|a| evaluate_expr(batch, &a.input))
+            .map(|a| widen_distinct_input(a, evaluate_expr(batch, &a.input)?))
             .collect();
         let agg_inputs = agg_inputs?;
 
@@ -2111,6 +2111,38 @@ fn aggregate_batches_hash(
     }
 
     RecordBatch::try_new(schema.clone(), output_arrays).map_err(Into::into)
+}
+
+/// Cast the input of a value-keyed aggregate (COUNT(DISTINCT), SUM(DISTINCT),
+/// APPROX_DISTINCT) to a type `extract_group_value` can represent and reject
+/// the rest. `extract_group_value` answers `GroupValue::Null` for any other
+/// type, so every Int16 / Float32 / Timestamp / Decimal128 / LargeUtf8 value
+/// collapsed into ONE distinct value: COUNT(DISTINCT ts) silently returned 1.
+fn widen_distinct_input(agg: &AggregateExpr, arr: ArrayRef) -> Result<ArrayRef> {
+    use DataType::*;
+    let sum = agg.func == AggregateFunction::Sum;
+    let counting = matches!(
+        agg.func,
+        AggregateFunction::CountDistinct | AggregateFunction::ApproxDistinct
+    );
+    if !(counting || (sum && agg.distinct)) {
+        return Ok(arr);
+    }
+    let to = match arr.data_type() {
+        Null | Int64 | Int32 | Float64 | Utf8 | Date32 | Boolean => return Ok(arr),
+        Dictionary(k, v) if **k == Int32 && **v == Utf8 => return Ok(arr),
+        Int8 | Int16 | UInt8 | UInt16 | UInt32 => Int64,
+        Float16 | Float32 => Float64,
+        // Counting needs identity only: the integer / text form is injective.
+        t if counting && t.is_temporal() => Int64,
+        UInt64 | Decimal128(..) | Decimal256(..) | LargeUtf8 | Utf8View if counting => Utf8,
+        Dictionary(_, v) if counting && matches!(**v, Utf8 | LargeUtf8) => Utf8,
+        t => {
+            let msg = format!("{} over distinct values of type {t}", agg.func);
+            return Err(QueryError::NotImplemented(msg));
+        }
+    };
+    Ok(arrow::compute::cast(&arr, &to)?)
 }
 
 fn extract_group_key(arrays: &[ArrayRef], row: usize) -> GroupKey {
